@@ -561,6 +561,9 @@ def scope_probes(fn, full):
         ("if-body-scope", "int x = a; if (b) { int x = c; x++; } return x == a;", 3),
         ("while-body-scope", "int x = a; int k = 0; while (k++ < 2) { int x = b; x += k; } return x == a;", 2),
         ("struct-tag-inner-incomplete", "struct t { int v; }; struct t o; o.v = a; { struct t; struct t *p = 0; (void)p; } return o.v == a;", 1),
+        ("tag-shadow-self-reference", "struct t { int v; }; struct t o; o.v = a; { struct t { struct t *next; int y; } p, q; p.next = &q; q.y = b; if (p.next->y != b) return 0; } return o.v == a;", 2),
+        ("tag-inner-declaration-hides", "struct t { int v; }; { struct t; struct t *p; struct t { long w[4]; } z; p = &z; z.w[3] = a; if (sizeof(*p) != 32 || p->w[3] != a) return 0; } return sizeof(struct t) == 4;", 1),
+        ("union-tag-shadow-self-reference", "union u { char c; }; { union u { union u *n; long l; } p, q; p.n = &q; q.l = a; if (p.n->l != a) return 0; } return sizeof(union u) == 1;", 1),
         ("funcparam-vs-global", "return g_glob == 0 ? 1 : 1;", 0),
     ]
     for name, body, nargs in progs:
